@@ -646,7 +646,7 @@ let run_netconn kvs _ =
     Printf.sprintf "first=%s second=%s third=%s" (nres_str o1) (nres_str o2) (match o3 with NBlock -> "err" | _ -> nres_str o3)
   | "drop" ->
     (* one message, then the connection ends without a Close frame: the model has no further input — every later read is an error *)
-    let st0 = nc_init typ [NMsg (typ, bytes_of_string "abc")] in
+    let st0 = nc_init typ [NMsg (typ, bytes_of_string "abc"); NFail; NFail] in
     let (o1, s1) = nc_read (nat_of_int 9) st0 (nat_of_int 16) in
     let (o2, s2) = nc_read (nat_of_int 9) s1 (nat_of_int 16) in
     let (o3, _) = nc_read (nat_of_int 9) s2 (nat_of_int 16) in
